@@ -660,7 +660,7 @@ def monitor_c18(run, where, inv, j, k, names, sel):
 
 
 def sched_check(PROP, THEOREMS, tier, seed, monitors, nscen_quick=600, nscen_thorough=6000, gen_kw=None,
-                extra_modules=("Model.All",), note=None, replay=None, scen_gen=None):
+                extra_modules=("Model.All",), note=None, replay=None, scen_gen=None, probes=None):
     run = Run(PROP, tier, seed, "proof")
     rng = random.Random(seed)
     info, problems = proof_gate(PROP, THEOREMS, extra_modules=list(extra_modules), thorough=(tier == "thorough"))
@@ -689,6 +689,8 @@ def sched_check(PROP, THEOREMS, tier, seed, monitors, nscen_quick=600, nscen_tho
             if "cyclic" not in kw:
                 kw["cyclic"] = (i % 5 == 0)
             scens.append(gen(rng, **kw))
+    if probes and not replay:
+        probes(run, har)
     reports = run_histories(har, [s[0] for s in scens])
     items, index = [], []
     for si, ((text, invs, _), rep) in enumerate(zip(scens, reports)):
